@@ -7,6 +7,7 @@
  *   SI_FD6_HEX   bytes written to descriptor 6;  SI_OUT_HEX  bytes written to descriptor 1 (after reading)
  *   SI_EXIT      exit status (default 0);  SI_KILL  signal number to die from
  *   SI_EXEC=1    finally exec argv[1..] (checkpassword success)
+ *   SI_PASS=path when the scripted exit status of this run is 0, exec `path` at once, before anything is read (a filter that lets the run through)
  *   SI_EXIT_SEQ  comma list of exit statuses consumed one per run (counter kept in <SI_DIR>/seq)
  */
 #include <fcntl.h>
@@ -81,6 +82,8 @@ int main(int argc, char **argv)
     while (j < k && strchr(q, ',')) { q = strchr(q, ',') + 1; ++j; }
     code = atoi(q);
   }
+  /* a filter in front of the real program (QMAILQUEUE wrappers): this run is either refused with the scripted status or handed over untouched */
+  if ((s = getenv("SI_PASS")) && code == 0) { execl(s, s, (char *)0); _exit(111); }
   {
     size_t len = 0; char *b = malloc(1 << 16); size_t cap = 1 << 16;
     for (i = 0; i < argc; ++i) { size_t l = strlen(argv[i]) + 1; if (len + l > cap) { cap = (len + l) * 2; b = realloc(b, cap); } memcpy(b + len, argv[i], l); len += l; }
